@@ -267,6 +267,27 @@ def rule_WT2(ctx, tier):
             rr.ok("%s dispatches on error_code == INVALID_SIGNATURE_OR_SUBSCRIPTION_ERROR (%d)" % (shortfn(fn), want))
         else:
             rr.fail("client-error-code:%s" % shortfn(fn), "`%s` dispatches on error codes %s, the tower's subscription error is %d" % (shortfn(fn), sorted(vals), want), where=b.span)
+    # hand-written sequence / map serialisers emit every element of what they are given: one serialize_element / serialize_entry
+    # per turn of their loop (an element dropped here is a locator, receipt or appointment the other side never sees)
+    from .rulekit import is_iter_next, always_reaches, switch_succ_with
+    nser = 0
+    for bid, b_ in sorted(P.bodies.items()):
+        if not bid.startswith(("teos_common::ser::", "watchtower_plugin::ser::", "teos::ser::")) or "::tests" in bid:
+            continue
+        opens = [bb for bb, t in b_.calls() if (call_target(t) or "").split("::")[-1] in ("serialize_seq", "serialize_map")]
+        if not opens:
+            continue
+        nser += 1
+        emits = {bb for bb, t in b_.calls() if (call_target(t) or "").split("::")[-1] in ("serialize_element", "serialize_entry", "serialize_key", "serialize_value")}
+        errs = {bb for bb, t in b_.calls() if (call_target(t) or "").endswith("::from_residual")}
+        heads = [bb for bb in b_.rpo() if is_iter_next(b_, bb)]
+        some_edges = [succ for h in heads for sw, succ in switch_succ_with(ctx, b_, "variant", "Some", "next") if succ in b_.reachable(h)]
+        if heads and some_edges and emits and all(always_reaches(b_, [e_], emits | errs, lambda x: x in heads) for e_ in some_edges):
+            rr.ok("%s emits one element per turn" % shortfn(bid))
+        else:
+            rr.fail("serialiser-drops-elements:%s" % shortfn(bid), "`%s` opens a sequence / map but a turn of its loop can pass without serialize_element / serialize_entry: the reply lists fewer items than the tower (or client) holds" % shortfn(bid), where=b_.span)
+    if nser < 3:
+        rr.fail("floor:sequence-serialisers", "only %d hand-written sequence / map serialisers found (4 on the reference tree)" % nser)
     rr.require_floor(8, "WT2 instances")
     return rr
 
